@@ -26,7 +26,10 @@ def run_one(sid):
     # private copy of the Lean workspace (sources + build output): the regenerated tables and rebuilt proofs of
     # this run never touch /verif/lean, so seeded runs can go in parallel with each other and with real checks
     lean = os.path.join(VERIF, "build", "lean-seeded-%s" % sid)
-    subprocess.check_call(["rsync", "-a", "--delete", os.path.join(VERIF, "lean") + "/", lean + "/"])
+    rc = subprocess.call(["rsync", "-a", "--delete", os.path.join(VERIF, "lean") + "/", lean + "/"],
+                         stderr=subprocess.DEVNULL)
+    if rc not in (0, 24):     # 24: files vanished while copying (a build was running in /verif/lean): lake rebuilds them
+      raise RuntimeError("rsync of the Lean workspace failed: %d" % rc)
     env = dict(os.environ, PYTYPE_REPO=wt, VERIF_LEAN_DIR=lean)
     t0 = time.time()
     r = subprocess.run(["./check", prop, "--tier", os.environ.get("VERIF_TIER", "quick")], cwd=VERIF, env=env,
